@@ -110,9 +110,16 @@ Record vd := mkvd {
   v_schema : option schema;
   v_full : bool;                  (* interlace of the table in the file *)
   v_tab : table;
-  v_att : option att;
-  v_bad : bool                    (* a failed schema definition left the vdata in an unspecified state *)
+  v_atts : list (Z * att);        (* current attachments: handle -> attachment *)
+  v_mover : option Z;             (* the handle that positioned last (attach / seek / read / write) *)
+  v_rlset : option Z;             (* the handle that selected fields last *)
+  v_bad : bool                    (* the vdata left the property's domain (e.g. detached without fields) *)
 }.
+
+(** Every attachment has its own current record (0 after VSattach) and its own field selection.  The library
+    keeps ONE position and ONE selection per vdata, shared by all read attachments; the two views agree as long as
+    an attachment relies on its position / selection only when it was the last one to set it.  Anything else is
+    outside the domain ([view] hides the value, the operation then answers [RUnspec]). *)
 
 Definition state := list (Z * vd).
 Definition init : state := [].
@@ -127,6 +134,7 @@ Inductive op :=
 | ORead (v n il : Z)
 | ODetach (v : Z)
 | OAttach (v : Z) (write : bool)
+| OAttachTo (h v : Z) (write : bool)     (* a further attachment, handle h, of the vdata created as v *)
 | OReopen
 | OInquire (v : Z)
 | OElts (v : Z)
@@ -196,13 +204,48 @@ Definition il_code (full : bool) : Z := if full then FULL_INTERLACE else NO_INTE
 Definition whole_only (d : vd) : bool :=
   negb (v_full d) && match v_schema d with Some s => (1 <? length s) | None => false end.
 
-Definition upd_att (d : vd) (a : option att) : vd := mkvd (v_defs d) (v_schema d) (v_full d) (v_tab d) a (v_bad d).
+Fixpoint find_att (h : Z) (l : list (Z * att)) : option att :=
+  match l with [] => None | (h', a) :: t => if (h =? h')%Z then Some a else find_att h t end.
+Fixpoint del_att (h : Z) (l : list (Z * att)) : list (Z * att) :=
+  match l with [] => [] | (h', a) :: t => if (h =? h')%Z then del_att h t else (h', a) :: del_att h t end.
+Definition is_some_eq (h : Z) (o : option Z) : bool := match o with Some x => (x =? h)%Z | None => false end.
 
-Definition with_att (s : state) (v : Z) (k : vd -> att -> state * res) : state * res :=
-  match lookup v s with
+(** what attachment h may rely on *)
+Definition view (d : vd) (h : Z) (a : att) : att :=
+  mkatt (a_write a) (if is_some_eq h (v_mover d) then a_pos a else None)
+        (if is_some_eq h (v_rlset d) then a_rl a else None) (a_wl a).
+
+(** record the new state of attachment h; [moved]: it (re)positioned, [sel]: it selected fields *)
+Definition store (d : vd) (h : Z) (a : att) (moved sel : bool) : vd :=
+  mkvd (v_defs d) (v_schema d) (v_full d) (v_tab d) ((h, a) :: del_att h (v_atts d))
+       (if moved then Some h else v_mover d) (if sel then Some h else v_rlset d) (v_bad d).
+Definition with_data (d : vd) (defs : list field) (sch : option schema) (full : bool) (tab : table) (bad : bool) : vd :=
+  mkvd defs sch full tab (v_atts d) (v_mover d) (v_rlset d) bad.
+
+Fixpoint find_h (h : Z) (s : state) : option (Z * vd * att) :=
+  match s with
+  | [] => None
+  | (k, d) :: t => match find_att h (v_atts d) with Some a => Some (k, d, a) | None => find_h h t end
+  end.
+
+Definition with_att (s : state) (h : Z) (k : Z -> vd -> att -> state * res) : state * res :=
+  match find_h h s with
   | None => (s, RFail)
-  | Some d => if v_bad d then (s, RUnspec) else
-              match v_att d with None => (s, RFail) | Some a => k d a end
+  | Some (key, d, a) => if v_bad d then (s, RUnspec) else k key d (view d h a)
+  end.
+
+Definition has_writer (d : vd) : bool := existsb (fun p => a_write (snd p)) (v_atts d).
+Definition handle_used (h : Z) (s : state) : bool :=
+  match find_h h s with Some _ => true | None => match lookup h s with Some _ => true | None => false end end.
+
+(** VSattach of an existing vdata: "w" needs the vdata to be unattached; "r" is refused while it is being written and
+    needs records to read; a new attachment starts at record 0 with no fields selected *)
+Definition attach_to (s : state) (h key : Z) (d : vd) (wr : bool) : state * res :=
+  if v_bad d then (s, RUnspec) else
+  match v_atts d, v_tab d with
+  | _ :: _, _ => if wr || has_writer d then (s, RFail) else (set key (store d h (mkatt false (Some 0) None false) true false) s, ROk [] [] [])
+  | [], [] => if wr then (set key (store d h (mkatt true (Some 0) None false) true false) s, ROk [] [] []) else (s, RUnspec)
+  | [], _ :: _ => (set key (store d h (mkatt wr (Some 0) None false) true false) s, ROk [] [] [])
   end.
 
 Definition names_to_idx (sch : schema) (names : list (list Z)) : option (list nat) :=
@@ -213,26 +256,27 @@ Definition step (s : state) (o : op) : state * res :=
   | ONew v =>
       match lookup v s with
       | Some _ => (s, RUnspec)
-      | None => (set v (mkvd [] None true [] (Some (mkatt true (Some 0) None false)) false) s, ROk [] [] [])
+      | None => if handle_used v s then (s, RUnspec) else
+                (set v (mkvd [] None true [] [(v, mkatt true (Some 0) None false)] (Some v) None false) s, ROk [] [] [])
       end
   | ODefine v name t order =>
-      with_att s v (fun d a =>
+      with_att s v (fun key d a =>
         if negb (a_write a) then (s, RUnspec) else
         let f := mkfield (cut_name name) t order in
         if existsb (Z.eqb 44) name || match name with [] => true | _ => false end then (s, RFail) else
         if negb (field_ok f) then (s, RFail) else
         if existsb (fun g => name_eqb (f_name f) (f_name g)) (v_defs d) then (s, RUnspec) else
-        (set v (mkvd (v_defs d ++ [f]) (v_schema d) (v_full d) (v_tab d) (v_att d) false) s, ROk [] [] []))
+        (set key (with_data d (v_defs d ++ [f]) (v_schema d) (v_full d) (v_tab d) false) s, ROk [] [] []))
   | OSetIl v il =>
-      with_att s v (fun d a =>
+      with_att s v (fun key d a =>
         if negb (a_write a) then (s, RFail) else
         match v_tab d with
         | _ :: _ => (s, RFail)
-        | [] => if il_ok il then (set v (mkvd (v_defs d) (v_schema d) (il_full il) [] (v_att d) false) s, ROk [] [] [])
+        | [] => if il_ok il then (set key (with_data d (v_defs d) (v_schema d) (il_full il) [] false) s, ROk [] [] [])
                 else (s, RFail)
         end)
   | OSetFields v names =>
-      with_att s v (fun d a =>
+      with_att s v (fun key d a =>
         match names with [] => (s, RFail) | _ =>
         if (VSFIELDMAX <? zlen names)%Z then (s, RFail) else
         match v_tab d, v_schema d with
@@ -240,26 +284,26 @@ Definition step (s : state) (o : op) : state * res :=
             if negb (a_write a) then (s, RAny) else
             if negb (nodup_names (map cut_name names)) then (s, RUnspec) else
             match all_some (map (fun nm => get_field (cut_name nm) (v_defs d ++ reserved)) names) with
-            | None => (set v (mkvd (v_defs d) None (v_full d) [] (v_att d) true) s, RFail)
+            | None => (s, RFail)
             | Some sch =>
                 if (Z.of_nat (sum (sizes sch)) <=? MAX_FIELD_SIZE)%Z
-                then (set v (mkvd (v_defs d) (Some sch) (v_full d) []
-                               (Some (mkatt true (a_pos a) None true)) false) s, ROk [] [] [])
-                else (set v (mkvd (v_defs d) None (v_full d) [] (v_att d) true) s, RFail)
+                then (set key (store (with_data d (v_defs d) (Some sch) (v_full d) [] false) v
+                                      (mkatt true (a_pos a) None true) false false) s, ROk [] [] [])
+                else (s, RFail)
             end
         | [], Some _ => (s, RAny)
         | _ :: _, None => (s, RUnspec)
         | _ :: _, Some sch =>
             match names_to_idx sch names with
-            | None => (set v (upd_att d (Some (mkatt (a_write a) (a_pos a) None false))) s, RFail)
+            | None => (set key (store d v (mkatt (a_write a) (a_pos a) None false) false true) s, RFail)
             | Some fl =>
                 let whole := forallb (fun p => Nat.eqb (fst p) (snd p)) (combine fl (seq 0 (length sch)))
                              && Nat.eqb (length fl) (length sch) in
-                (set v (upd_att d (Some (mkatt (a_write a) (a_pos a) (Some fl) whole))) s, ROk [] [] [])
+                (set key (store d v (mkatt (a_write a) (a_pos a) (Some fl) whole) false true) s, ROk [] [] [])
             end
         end end)
   | OWrite v n il buf =>
-      with_att s v (fun d a =>
+      with_att s v (fun key d a =>
         if (n <=? 0)%Z then (s, RFail) else
         if negb (a_write a) then (s, RFail) else
         match v_schema d with
@@ -276,12 +320,12 @@ Definition step (s : state) (o : op) : state * res :=
                 if whole_only d && negb (Nat.eqb pos 0 && (match v_tab d with [] => true | _ => Nat.eqb n' (length (v_tab d)) end))
                 then (s, RUnspec) else
                 let t' := put_rows (v_tab d) pos (parse (il_full il) (sizes sch) n' buf) in
-                (set v (mkvd (v_defs d) (v_schema d) (v_full d) t'
-                          (Some (mkatt true (Some (pos + n')) (a_rl a) (a_wl a))) false) s, ROk [n] [] [])
+                (set key (store (with_data d (v_defs d) (v_schema d) (v_full d) t' false) v
+                                (mkatt true (Some (pos + n')) (a_rl a) (a_wl a)) true false) s, ROk [n] [] [])
             end
         end)
   | OSeek v p =>
-      with_att s v (fun d a =>
+      with_att s v (fun key d a =>
         if (p <? 0)%Z then (s, RFail) else
         match v_schema d with
         | None => (s, RFail)
@@ -289,10 +333,10 @@ Definition step (s : state) (o : op) : state * res :=
             let p' := Z.to_nat p in
             if (length (v_tab d) <? p') then (s, RUnspec) else
             if whole_only d && negb (Nat.eqb p' 0) then (s, RUnspec) else
-            (set v (upd_att d (Some (mkatt (a_write a) (Some p') (a_rl a) (a_wl a)))) s, ROk [p] [] [])
+            (set key (store d v (mkatt (a_write a) (Some p') (a_rl a) (a_wl a)) true false) s, ROk [p] [] [])
         end)
   | ORead v n il =>
-      with_att s v (fun d a =>
+      with_att s v (fun key d a =>
         match v_tab d, v_schema d with
         | [], _ => (s, RFail)
         | _, None => (s, RUnspec)
@@ -304,44 +348,42 @@ Definition step (s : state) (o : op) : state * res :=
                 let n' := Z.to_nat n in
                 if negb (nodup_nat fl) then (s, RUnspec) else
                 if (length (v_tab d) <? pos + n') then
-                  (set v (upd_att d (Some (mkatt (a_write a) None (a_rl a) (a_wl a)))) s, RFail) else
+                  (set key (store d v (mkatt (a_write a) None (a_rl a) (a_wl a)) true false) s, RFail) else
                 if whole_only d && negb (Nat.eqb pos 0 && Nat.eqb n' (length (v_tab d))) then (s, RUnspec) else
-                (set v (upd_att d (Some (mkatt (a_write a) (Some (pos + n')) (a_rl a) (a_wl a)))) s,
+                (set key (store d v (mkatt (a_write a) (Some (pos + n')) (a_rl a) (a_wl a)) true false) s,
                  ROk [n] [] [read_buf (il_full il) fl (v_tab d) pos n'])
             | _, _ => (s, RUnspec)
             end
         end)
   | ODetach v =>
-      with_att s v (fun d a =>
-        match v_schema d with
-        | None => (set v (mkvd [] None (v_full d) (v_tab d) None true) s, ROk [] [] [])
-        | Some _ => (set v (mkvd [] (v_schema d) (v_full d) (v_tab d) None false) s, ROk [] [] [])
-        end)
+      with_att s v (fun key d a =>
+        let d' := mkvd (if a_write a then [] else v_defs d) (v_schema d) (v_full d) (v_tab d) (del_att v (v_atts d))
+                       (v_mover d) (v_rlset d)
+                       (match v_schema d with None => true | Some _ => false end) in
+        (set key d' s, ROk [] [] []))
   | OAttach v wr =>
       match lookup v s with
       | None => (s, RUnspec)
-      | Some d =>
-          if v_bad d then (s, RUnspec) else
-          match v_att d, v_tab d with
-          | Some _, _ => (s, RUnspec)
-          | None, [] => if wr then (set v (upd_att d (Some (mkatt true (Some 0) None false))) s, ROk [] [] [])
-                        else (s, RUnspec)
-          | None, _ :: _ => (set v (upd_att d (Some (mkatt wr (Some 0) None false))) s, ROk [] [] [])
-          end
+      | Some d => match find_h v s with Some _ => (s, RUnspec) | None => attach_to s v v d wr end
+      end
+  | OAttachTo h v wr =>
+      match lookup v s with
+      | None => (s, RUnspec)
+      | Some d => if handle_used h s then (s, RUnspec) else attach_to s h v d wr
       end
   | OReopen =>
-      if existsb (fun p => match v_att (snd p) with Some _ => true | None => v_bad (snd p) end) s then (s, RUnspec)
+      if existsb (fun p => match v_atts (snd p) with _ :: _ => true | [] => v_bad (snd p) end) s then (s, RUnspec)
       else (s, ROk [] [] [])
   | OInquire v =>
-      with_att s v (fun d a =>
+      with_att s v (fun key d a =>
         match v_schema d with
         | None => (s, RAny)
         | Some sch => (s, ROk [zlen (v_tab d); il_code (v_full d); Z.of_nat (sum (sizes sch)); zlen sch]
                               (map f_name sch) [])
         end)
-  | OElts v => with_att s v (fun d a => (s, ROk [zlen (v_tab d)] [] []))
+  | OElts v => with_att s v (fun key d a => (s, ROk [zlen (v_tab d)] [] []))
   | OSizeof v names =>
-      with_att s v (fun d a =>
+      with_att s v (fun key d a =>
         match v_schema d, names with
         | None, _ => (s, RFail)
         | _, [] => (s, RFail)
@@ -352,7 +394,7 @@ Definition step (s : state) (o : op) : state * res :=
             end
         end)
   | OField v idx =>
-      with_att s v (fun d a =>
+      with_att s v (fun key d a =>
         match v_schema d with
         | None => (s, RFail)
         | Some sch =>
@@ -363,11 +405,11 @@ Definition step (s : state) (o : op) : state * res :=
             end
         end)
   | ONFields v =>
-      with_att s v (fun d a => (s, ROk [match v_schema d with Some sch => zlen sch | None => 0%Z end] [] []))
+      with_att s v (fun key d a => (s, ROk [match v_schema d with Some sch => zlen sch | None => 0%Z end] [] []))
   | OBlockSize v n | ONumBlocks v n =>
-      with_att s v (fun d a => if (0 <? n)%Z then (s, ROk [] [] []) else (s, RFail))
+      with_att s v (fun key d a => if (0 <? n)%Z then (s, ROk [] [] []) else (s, RFail))
   | OPack v n bufflds flds cols =>
-      with_att s v (fun d a =>
+      with_att s v (fun key d a =>
         match v_schema d with
         | None => (s, RUnspec)
         | Some sch =>
@@ -394,7 +436,7 @@ Definition step (s : state) (o : op) : state * res :=
             end
         end)
   | OUnpack v n bufflds flds buf =>
-      with_att s v (fun d a =>
+      with_att s v (fun key d a =>
         match v_schema d with
         | None => (s, RUnspec)
         | Some sch =>
